@@ -107,6 +107,10 @@ type placementStaticPath struct {
 
 // Check the ACL
 func checkACL(acl string) error {
+	// the ACL loader splits the unchanged string on single spaces: more than two fields cannot be loaded
+	if len(strings.Split(acl, common.Space)) > 2 {
+		return fmt.Errorf("multiple spaces found in ACL: '%s'", acl)
+	}
 	// trim any white space
 	acl = strings.TrimSpace(acl)
 	// handle special cases: deny and wildcard
